@@ -465,6 +465,28 @@ class PCBO(PUBO):
             for k, v in args[0]._constraints.items():
                 self._constraints.setdefault(k, []).extend(v)
 
+    def __imul__(self, other):
+        """__imul__.
+
+        Same as ``DictArithmetic.__imul__``. Multiplying by a dictionary
+        rebuilds the object with ``clear``; the recorded constraints and the
+        ancilla counter must survive that.
+
+        Parameters
+        ----------
+        other : a dict or number.
+
+        Returns
+        -------
+        self.
+
+        """
+        ancilla, constraints = self._ancilla, self._constraints
+        # use self.__class__ here because PCSO uses this code as well.
+        res = super(self.__class__, self).__imul__(other)
+        self._ancilla, self._constraints = ancilla, constraints
+        return res
+
     @property
     def constraints(self):
         """constraints.
